@@ -72,3 +72,16 @@ PLANS["C18"] = Plan(level="proof", proofs=ROUTES + [("contracts.unit_ops", "AsCo
                     explanation="normal and exceptional frame conditions of the conversion routes")
 PLANS["C17"] = Plan(level="proof", proofs=ROUTES, trusted_base=BASE_TRUST,
                     explanation="dtype obligations decided for the whole dtype lattice (symbolic kind/itemsize)")
+
+PLANS["C05"] = Plan(
+    level="proof",
+    proofs=[("contracts.unit_ops", c) for c in ("UnitMul", "UnitTrueDiv", "UnitPow", "UnitEq",
+                                                "SameDimensionsAs", "AsCoeffUnit")],
+    lemmas=[("contracts.lemmas_c05", n) for n in ("commutativity", "associativity", "identity",
+                                                  "inverse", "div_inverse", "pow_pow", "pow_distrib",
+                                                  "homomorphism", "joule")],
+    trusted_base=BASE_TRUST,
+    explanation="Unit.__mul__/__truediv__/__pow__/__eq__/as_coeff_unit proved against "
+                "scale/dimension/offset/registry postconditions; the algebraic laws are lemmas "
+                "over those contracts",
+)
